@@ -79,6 +79,9 @@ namespace sqf::runtime
         {
             m_frames.push_back(frame);
             m_frames.back().value_stack_pos(m_values.size());
+#ifdef SQFVM_RUNTIME_VERIF
+            m_frames.back().verif_id = ++sqf::runtime::verif::get().frame_counter;
+#endif
 #ifdef DF__SQF_RUNTIME__ASSEMBLY_DEBUG_ON_EXECUTE
 
             std::cout << "\x1B[33m[ASSEMBLY ASSERT]\033[0m" <<
